@@ -248,6 +248,12 @@ def gen(rng, tier):
     yield from chunks(demo.dump(), itertools.chain(["-"], sweep(demo, six + [2], [])))
     if tier != "quick":
         yield from chunks(demo.dump(), sweep(demo, [], six))
+    # deep chains: the traversal has no depth limit of its own (arrays, objects, mixed; the leaf and the second
+    # visits of every open container must all be reported)
+    for d in ((1030, 1500, 2500) if tier == "quick" else (1023, 1024, 1025, 1026, 2000, 4096, 6000)):
+        chain_a = "[" * d + "i1" + "]" * d
+        chain_m = "".join("[" if i % 2 == 0 else "{61:" for i in range(d)) + "n" + "".join("]" if i % 2 == 0 else "}" for i in reversed(range(d)))
+        yield {"lines": ["visit %s -" % chain_a, "visit %s -" % chain_m], "noshrink": True}
     # random trees x random schedules
     ntrees = 3000 if tier == "quick" else 20000
     for i in range(ntrees):
